@@ -52,9 +52,14 @@ struct Turn {
   void end(int, int phase) { std::unique_lock<std::mutex> lk(m); phase_done[phase]++; turn++; cv.notify_all(); }
 };
 
+// a per-thread accumulator that exists before the thread's first allocation (so it is destroyed after the thread's block
+// cache): its storage must still be released when the thread ends
+static thread_local SU_vector tl_accumulator;
 static void run_ops(int t, int phase, const ThreadProg& pr, const SharedSol& sol, Mail& mail, int nthreads, std::vector<double>& out, std::vector<std::unique_ptr<SU_vector>>& mine) {
   int d = pr.d;
   auto val = [&](int k) { return pr.seedvals[(size_t)k % pr.seedvals.size()]; };
+  bool use_acc = (pr.seedvals.size() + (size_t)t) % 2 == 0 || pr.d % 2 == 0;
+  if (use_acc && phase == 0) { volatile unsigned touch = tl_accumulator.Dim(); (void)touch; }  // constructed (empty) before anything is allocated here
   SU_vector a(d), b(d);
   for (int k = 0; k < d * d; k++) { a[k] = val(k + 7 * phase); b[k] = val(2 * k + 3); }
   if (phase == 1) {  // take what the other threads sent; the blocks were allocated there and are released here
@@ -104,6 +109,7 @@ static void run_ops(int t, int phase, const ThreadProg& pr, const SharedSol& sol
       }
     }
   }
+  if (use_acc) { if (tl_accumulator.Dim() != (unsigned)d) tl_accumulator = a; else tl_accumulator += a; out.push_back(tl_accumulator[1]); }
   (void)mine;
 }
 
